@@ -64,7 +64,7 @@ fn main() {
             let want = orch::bin_for(&spec.profile);
             let me = std::env::current_exe().ok();
             if me.as_deref() != Some(want.as_path()) && want.exists() && std::env::var("GMC_NO_REEXEC").is_err() {
-                let st = std::process::Command::new(&want).args(&args[1..]).env("GMC_NO_REEXEC", "1").env("ASAN_OPTIONS", "detect_leaks=0:abort_on_error=0:exitcode=98:allocator_may_return_null=1").status().expect("re-exec");
+                let st = std::process::Command::new(&want).args(&args[1..]).env("GMC_NO_REEXEC", "1").env("ASAN_OPTIONS", "detect_leaks=0:abort_on_error=0:exitcode=98:allocator_may_return_null=1:detect_stack_use_after_scope=0").status().expect("re-exec");
                 std::process::exit(st.code().unwrap_or(98));
             }
             watchdog();
